@@ -1149,22 +1149,136 @@ type statusChoice struct {
 	cursor int
 }
 
-// alphaLattice crosses the optional blocks of a v1alpha1 Rollout.
-func (d *domain) alphaLattice(wrefs []bool, statuses []statusChoice, styles, trs []string, sc []stepsChoice, rc []routesChoice, patches, fts []string) {
-	for _, wref := range wrefs {
-		for _, st := range statuses {
-			for _, style := range styles {
-				for _, tr := range trs {
-					in := baseIn("Rollout", "alpha")
-					in.Wref, in.Status, in.Cursor, in.StyleAnn, in.TrAnn = wref, st.status, st.cursor, style, tr
-					in.Strategy = "none" // the optional canary block absent
+// rolloutBases: representative Rollout shapes (no steps / multi-step plans x no routing / two routings).
+func rolloutBases(dir string) []In {
+	sc, rc := stepsChoices(false), routesChoices(false)
+	bases := []In{}
+	for _, s := range []stepsChoice{sc[0], sc[len(sc)-2], sc[len(sc)-1]} {
+		for _, r := range []routesChoice{rc[0], rc[len(rc)-1]} {
+			in := baseIn("Rollout", dir)
+			in.StepsMode, in.Steps, in.RoutingsMode, in.Routings = s.mode, s.steps, r.mode, r.routes
+			bases = append(bases, in)
+		}
+	}
+	return bases
+}
+
+func batchChoices() []stepsChoice {
+	mk := func(bs ...string) stepsChoice {
+		out := stepsChoice{mode: "list", steps: []StepIn{}}
+		for _, b := range bs {
+			out.steps = append(out.steps, StepIn{R: b})
+		}
+		return out
+	}
+	return []stepsChoice{{"nil", []StepIn{}}, mk(), mk("int:1"), mk("str:20%"), mk("int:1", "str:50%", "str:100%"), mk("int:0", "int:5", "str:abc")}
+}
+
+func brIn(dir string, bc stepsChoice) In {
+	in := baseIn("BatchRelease", dir)
+	in.Strategy, in.BatchesMode = "plan", bc.mode
+	for _, s := range bc.steps {
+		in.Batches = append(in.Batches, s.R)
+	}
+	return in
+}
+
+// Part 1 (enumerated first, small): the optional blocks the conversion code dereferences, absent.
+func (d *domain) nilBlocks(thorough bool) {
+	statuses := []statusChoice{{"none", 0}, {"plain", 0}, {"canary", 1}}
+	// v1alpha1 Rollout: spec.objectRef.workloadRef and / or spec.strategy.canary absent
+	for _, wref := range []bool{true, false} {
+		for _, strategy := range []string{"none", "canary"} {
+			if wref && strategy == "canary" {
+				continue
+			}
+			bases := rolloutBases("alpha")
+			if strategy == "none" {
+				bases = bases[:1]
+			}
+			for _, b := range bases {
+				for _, st := range statuses {
+					for _, style := range []string{"-", "partition"} {
+						for _, tr := range []string{"-", "tr-demo"} {
+							in := b
+							in.Wref, in.Strategy, in.Status, in.Cursor, in.StyleAnn, in.TrAnn = wref, strategy, st.status, st.cursor, style, tr
+							d.emit(in)
+						}
+					}
+				}
+			}
+		}
+	}
+	// v1alpha1 BatchRelease: spec.targetReference.workloadRef absent
+	for _, bc := range batchChoices() {
+		for _, bp := range []int{NONE, 1} {
+			for _, st := range []statusChoice{{"none", 0}, {"full", 1}} {
+				for _, style := range [][2]string{{"", "-"}, {"Partition", "partition"}} {
+					for _, extra := range []bool{false, true} {
+						in := brIn("alpha", bc)
+						in.Wref, in.BatchPartition, in.Status, in.Cursor, in.SpecStyle, in.StyleAnn, in.EnableExtra = false, bp, st.status, st.cursor, style[0], style[1], extra
+						d.emit(in)
+					}
+				}
+			}
+		}
+	}
+	// v1beta1 Rollouts v1alpha1 cannot express (read direction only): blue-green, both, no strategy block at all
+	for _, strat := range []string{"bluegreen", "both", "none"} {
+		for _, b := range rolloutBases("beta") {
+			for _, st := range []statusChoice{{"none", 0}, {"canary", 1}} {
+				for _, other := range []bool{false, true} {
+					in := b
+					in.Strategy, in.Status, in.Cursor, in.OtherAnn = strat, st.status, st.cursor, other
+					if strat == "none" {
+						in.StepsMode, in.Steps, in.RoutingsMode, in.Routings = "nil", []StepIn{}, "nil", []RouteIn{}
+					}
 					d.emit(in)
-					in.Strategy = "canary"
-					for _, s := range sc {
-						for _, r := range rc {
-							for _, patch := range patches {
-								for _, ft := range fts {
-									in.StepsMode, in.Steps, in.RoutingsMode, in.Routings, in.Patch, in.FT = s.mode, s.steps, r.mode, r.routes, patch, ft
+				}
+			}
+		}
+	}
+	// canary-strategy v1beta1 Rollouts using step fields v1alpha1 cannot express (must still convert without crashing)
+	for x := 1; x <= 3; x++ {
+		for _, m := range []int{0, 1, 2} {
+			for _, w := range []int{NONE, 20} {
+				for _, r := range []string{"none", "int:2"} {
+					for _, extra := range []bool{false, true} {
+						in := baseIn("Rollout", "beta")
+						in.StepsMode, in.Steps, in.EnableExtra = "list", []StepIn{{W: w, R: r, P: NONE, M: m, X: x}, {W: 100, R: "str:100%", P: 0, M: 0}}, extra
+						d.emit(in)
+					}
+				}
+			}
+		}
+	}
+}
+
+// Part 2 (small): the style encodings of a BatchRelease and the flags outside the listed meaning.
+func (d *domain) stylesAndFlags(thorough bool) {
+	specStyles := []string{"", "Partition", "Canary", "BlueGreen"}
+	alphaAnns, betaAnns := []string{"-", "partition", "canary", "bluegreen"}, []string{"-", "partition", "canary", "bluegreen"}
+	rids, patches := []string{""}, []string{"none"}
+	if thorough {
+		alphaAnns = []string{"-", "", "partition", "Partition", "canary", "Canary", "bluegreen", "BlueGreen", "other"}
+		betaAnns = []string{"-", "partition", "canary", "Canary", "bluegreen", "other"}
+		rids, patches = []string{"", "rid-1"}, []string{"none", "full"}
+	}
+	bcs := batchChoices()
+	for _, dir := range []string{"alpha", "beta"} {
+		anns := alphaAnns
+		if dir == "beta" {
+			anns = betaAnns
+		}
+		for _, ss := range specStyles {
+			for _, ann := range anns {
+				for _, extra := range []bool{false, true} {
+					for _, bc := range []stepsChoice{bcs[0], bcs[4]} {
+						for _, st := range []statusChoice{{"none", 0}, {"full", 1}} {
+							for _, rid := range rids {
+								for _, patch := range patches {
+									in := brIn(dir, bc)
+									in.SpecStyle, in.StyleAnn, in.EnableExtra, in.Status, in.Cursor, in.RolloutID, in.Patch = ss, ann, extra, st.status, st.cursor, rid, patch
 									d.emit(in)
 								}
 							}
@@ -1174,38 +1288,90 @@ func (d *domain) alphaLattice(wrefs []bool, statuses []statusChoice, styles, trs
 			}
 		}
 	}
+	// Rollout: disableGenerateCanaryService (both versions have the field), deprecated rolloutID (v1alpha1 only)
+	for _, b := range rolloutBases("beta") {
+		for _, extra := range []bool{false, true} {
+			for _, trref := range []string{"", "tr-demo"} {
+				for _, paused := range []bool{false, true} {
+					for _, ann := range []bool{false, true} {
+						in := b
+						in.DisableSvc, in.EnableExtra, in.Trref, in.Paused = true, extra, trref, paused
+						if ann { // annotations as left behind by an earlier write through v1alpha1
+							in.StyleAnn = "partition"
+							if extra {
+								in.StyleAnn = "canary"
+							}
+							if trref != "" {
+								in.TrAnn = trref
+							}
+						}
+						d.emit(in)
+					}
+				}
+			}
+		}
+	}
+	for _, b := range rolloutBases("alpha") {
+		for _, svc := range []bool{false, true} {
+			for _, rid := range []string{"", "rid-1"} {
+				for _, style := range []string{"-", "partition"} {
+					for _, paused := range []bool{false, true} {
+						if !svc && rid == "" {
+							continue
+						}
+						in := b
+						in.DisableSvc, in.RolloutID, in.StyleAnn, in.Paused = svc, rid, style, paused
+						d.emit(in)
+					}
+				}
+			}
+		}
+	}
 }
 
+// alphaLattice crosses the optional blocks of a v1alpha1 Rollout.
+func (d *domain) alphaLattice(statuses []statusChoice, styles, trs []string, sc []stepsChoice, rc []routesChoice, patches, fts []string) {
+	for _, st := range statuses {
+		for _, style := range styles {
+			for _, tr := range trs {
+				in := baseIn("Rollout", "alpha")
+				in.Status, in.Cursor, in.StyleAnn, in.TrAnn = st.status, st.cursor, style, tr
+				for _, s := range sc {
+					for _, r := range rc {
+						for _, patch := range patches {
+							for _, ft := range fts {
+								in.StepsMode, in.Steps, in.RoutingsMode, in.Routings, in.Patch, in.FT = s.mode, s.steps, r.mode, r.routes, patch, ft
+								d.emit(in)
+							}
+						}
+					}
+				}
+			}
+		}
+	}
+}
+
+// Part 3: v1alpha1 Rollouts, the presence / absence lattice of every optional block x value sets.
 func (d *domain) rolloutAlpha(thorough bool) {
 	sc, rc := stepsChoices(false), routesChoices(false)
 	statuses := []statusChoice{{"none", 0}, {"plain", 0}, {"canary", 1}}
 	styles, trs := []string{"-", "partition"}, []string{"-", "tr-demo"}
-	// (1) the presence / absence lattice of every optional block
 	if !thorough {
-		d.alphaLattice([]bool{true, false}, statuses, styles, trs, sc, rc, []string{"none", "full"}, []string{"none", "int"})
+		d.alphaLattice(statuses, styles, trs, sc, rc, []string{"none", "full"}, []string{"none", "int"})
 	} else {
-		d.alphaLattice([]bool{true, false}, append(statuses, statusChoice{"canary", 0}, statusChoice{"canary", 2}), []string{"-", "partition", "canary", "Partition"}, trs, sc, rc,
+		d.alphaLattice(append(statuses, statusChoice{"canary", 0}, statusChoice{"canary", 2}), []string{"-", "partition", "canary", "Partition"}, trs, sc, rc,
 			[]string{"none", "full"}, []string{"none", "int"})
 		// the same lattice over the larger value sets of steps / routings
-		d.alphaLattice([]bool{true}, []statusChoice{{"canary", 1}}, styles, trs, stepsChoices(true), routesChoices(true), []string{"none", "full"}, []string{"none", "int", "str"})
+		d.alphaLattice([]statusChoice{{"canary", 1}}, styles, trs, stepsChoices(true), routesChoices(true), []string{"none", "full"}, []string{"none", "int", "str"})
 	}
-	// (2) value sets around representative shapes
-	bases := []In{}
-	for _, s := range []stepsChoice{sc[0], sc[len(sc)-2], sc[len(sc)-1]} {
-		for _, r := range []routesChoice{rc[0], rc[len(rc)-1]} {
-			in := baseIn("Rollout", "alpha")
-			in.StepsMode, in.Steps, in.RoutingsMode, in.Routings = s.mode, s.steps, r.mode, r.routes
-			bases = append(bases, in)
-		}
-	}
-	for _, b := range bases {
+	for _, b := range rolloutBases("alpha") {
 		for _, style := range []string{"-", "", "partition", "Partition", "PARTITION", "canary", "Canary", "bluegreen", "other"} {
 			for _, tr := range []string{"-", "", "tr-demo"} {
 				for _, other := range []bool{false, true} {
-					for _, flags := range []int{0, 1, 2, 3, 4, 5, 6, 7} {
+					for _, flags := range []int{0, 1, 2, 3} {
 						in := b
 						in.StyleAnn, in.TrAnn, in.OtherAnn = style, tr, other
-						in.Paused, in.Disabled, in.DisableSvc = flags&1 != 0, flags&2 != 0, flags&4 != 0
+						in.Paused, in.Disabled = flags&1 != 0, flags&2 != 0
 						d.emit(in)
 					}
 				}
@@ -1213,12 +1379,10 @@ func (d *domain) rolloutAlpha(thorough bool) {
 		}
 		for _, patch := range []string{"none", "empty", "full"} {
 			for _, ft := range []string{"none", "int", "str"} {
-				for _, rid := range []string{"", "rid-1"} {
-					for _, st := range []statusChoice{{"none", 0}, {"plain", 0}, {"canary", 0}, {"canary", 1}, {"canary", 2}, {"canary", 3}} {
-						in := b
-						in.Patch, in.FT, in.RolloutID, in.Status, in.Cursor = patch, ft, rid, st.status, st.cursor
-						d.emit(in)
-					}
+				for _, st := range []statusChoice{{"none", 0}, {"plain", 0}, {"canary", 0}, {"canary", 1}, {"canary", 2}, {"canary", 3}} {
+					in := b
+					in.Patch, in.FT, in.Status, in.Cursor = patch, ft, st.status, st.cursor
+					d.emit(in)
 				}
 			}
 		}
@@ -1258,34 +1422,26 @@ func (d *domain) betaLattice(statuses []statusChoice, anns []string, sc []stepsC
 	}
 }
 
+// Part 4: canary-strategy v1beta1 Rollouts restricted to v1alpha1-expressible fields.
 func (d *domain) rolloutBeta(thorough bool) {
 	sc, rc := stepsChoices(false), routesChoices(false)
-	// (1) canary-strategy objects restricted to v1alpha1-expressible fields: presence lattice
 	if !thorough {
 		d.betaLattice([]statusChoice{{"none", 0}, {"canary", 1}}, []string{"none", "consistent"}, sc, rc, []string{"none", "full"}, []string{"none", "int"})
 	} else {
 		d.betaLattice([]statusChoice{{"none", 0}, {"plain", 0}, {"canary", 1}, {"canary", 2}}, []string{"none", "consistent"}, sc, rc, []string{"none", "full"}, []string{"none", "int"})
 		d.betaLattice([]statusChoice{{"canary", 1}}, []string{"none"}, stepsChoices(true), routesChoices(true), []string{"none", "full"}, []string{"none", "int", "str"})
 	}
-	// (2) value sets, contradicting annotations, every other v1alpha1-expressible flag
-	bases := []In{}
-	for _, s := range []stepsChoice{sc[0], sc[len(sc)-2], sc[len(sc)-1]} {
-		for _, r := range []routesChoice{rc[0], rc[len(rc)-1]} {
-			in := baseIn("Rollout", "beta")
-			in.StepsMode, in.Steps, in.RoutingsMode, in.Routings = s.mode, s.steps, r.mode, r.routes
-			bases = append(bases, in)
-		}
-	}
-	for _, b := range bases {
+	// value sets, including left-over v1alpha1 annotations that contradict the spec
+	for _, b := range rolloutBases("beta") {
 		for _, style := range []string{"-", "partition", "canary", "Canary", "other"} {
 			for _, tr := range []string{"-", "tr-demo", "tr-other"} {
 				for _, extra := range []bool{false, true} {
 					for _, trref := range []string{"", "tr-demo"} {
 						for _, other := range []bool{false, true} {
-							for _, flags := range []int{0, 1, 2, 3, 4, 5, 6, 7} {
+							for _, flags := range []int{0, 1, 2, 3} {
 								in := b
 								in.StyleAnn, in.TrAnn, in.EnableExtra, in.Trref, in.OtherAnn = style, tr, extra, trref, other
-								in.Paused, in.Disabled, in.DisableSvc = flags&1 != 0, flags&2 != 0, flags&4 != 0
+								in.Paused, in.Disabled = flags&1 != 0, flags&2 != 0
 								d.emit(in)
 							}
 						}
@@ -1303,88 +1459,38 @@ func (d *domain) rolloutBeta(thorough bool) {
 			}
 		}
 	}
-	// (3) objects v1alpha1 cannot express (read direction only): blue-green, both, no strategy block at all
-	for _, strat := range []string{"bluegreen", "both", "none"} {
-		for _, b := range bases {
-			for _, st := range []statusChoice{{"none", 0}, {"canary", 1}} {
-				for _, other := range []bool{false, true} {
-					in := b
-					in.Strategy, in.Status, in.Cursor, in.OtherAnn = strat, st.status, st.cursor, other
-					if strat == "none" {
-						in.StepsMode, in.Steps, in.RoutingsMode, in.Routings = "nil", []StepIn{}, "nil", []RouteIn{}
-					}
-					d.emit(in)
-				}
-			}
-		}
-	}
-	// (4) canary-strategy objects using step fields v1alpha1 cannot express (must still convert without crashing)
-	for x := 1; x <= 3; x++ {
-		for _, m := range []int{0, 1, 2} {
-			for _, w := range []int{NONE, 20} {
-				for _, r := range []string{"none", "int:2"} {
-					for _, extra := range []bool{false, true} {
-						in := baseIn("Rollout", "beta")
-						in.StepsMode, in.Steps, in.EnableExtra = "list", []StepIn{{W: w, R: r, P: NONE, M: m, X: x}, {W: 100, R: "str:100%", P: 0, M: 0}}, extra
-						d.emit(in)
-					}
-				}
-			}
-		}
-	}
 }
 
-func batchChoices() []stepsChoice {
-	mk := func(bs ...string) stepsChoice {
-		out := stepsChoice{mode: "list", steps: []StepIn{}}
-		for _, b := range bs {
-			out.steps = append(out.steps, StepIn{R: b})
-		}
-		return out
-	}
-	return []stepsChoice{{"nil", []StepIn{}}, mk(), mk("int:1"), mk("str:20%"), mk("int:1", "str:50%", "str:100%"), mk("int:0", "int:5", "str:abc")}
-}
-
+// Part 5: BatchReleases, the presence / absence lattice x value sets (style encodings that agree with each other).
 func (d *domain) batchRelease(dir string, thorough bool) {
-	styles := []string{"-", "partition", "canary", "bluegreen"}
-	specStyles := []string{"", "Partition", "Canary", "BlueGreen"}
+	pairs := [][2]string{{"", "-"}, {"", "partition"}, {"", "canary"}, {"", "bluegreen"}, {"Partition", "partition"}, {"Canary", "canary"}, {"BlueGreen", "bluegreen"}}
+	wrefs := []bool{true}
+	if dir == "beta" {
+		pairs = [][2]string{{"", "-"}, {"Partition", "-"}, {"Canary", "-"}, {"BlueGreen", "-"}, {"Partition", "partition"}, {"Canary", "canary"}, {"BlueGreen", "bluegreen"}}
+		wrefs = []bool{true, false} // a struct in v1beta1: absent means the empty reference
+	}
 	fts, patches, fins := []string{"none", "int"}, []string{"none", "full"}, []string{"", "WaitResume"}
-	rids, others := []string{""}, []bool{false}
+	rids := []string{""}
 	statuses := []statusChoice{{"none", 0}, {"full", 1}}
 	if thorough {
-		styles = []string{"-", "", "partition", "Partition", "canary", "Canary", "bluegreen", "BlueGreen", "other"}
-		if dir == "beta" {
-			styles = []string{"-", "partition", "canary", "Canary", "bluegreen"}
-		}
-		patches = []string{"none", "empty", "full"}
+		fts, patches = []string{"none", "int", "str"}, []string{"none", "empty", "full"}
 		rids = []string{"", "rid-1"}
+		statuses = append(statuses, statusChoice{"full", 0})
 	}
-	wrefs := []bool{true, false}
 	for _, wref := range wrefs {
 		for _, bc := range batchChoices() {
 			for _, bp := range []int{NONE, 1} {
 				for _, ft := range fts {
 					for _, patch := range patches {
 						for _, fin := range fins {
-							for _, ss := range specStyles {
-								for _, style := range styles {
-									for _, extra := range []bool{false, true} {
-										for _, rid := range rids {
-											for _, other := range others {
-												for _, st := range statuses {
-													in := baseIn("BatchRelease", dir)
-													in.Strategy = "plan"
-													in.Wref, in.BatchesMode, in.BatchPartition, in.FT, in.Patch, in.FinalizingPolicy = wref, bc.mode, bp, ft, patch, fin
-													for _, s := range bc.steps {
-														in.Batches = append(in.Batches, s.R)
-													}
-													in.SpecStyle, in.StyleAnn, in.EnableExtra, in.RolloutID, in.OtherAnn, in.Status, in.Cursor = ss, style, extra, rid, other, st.status, st.cursor
-													if dir == "beta" && !thorough && style != "-" && strings.ToLower(ss) != style {
-														continue // quick: only consistent left-over annotations on the v1beta1 side
-													}
-													d.emit(in)
-												}
-											}
+							for _, pair := range pairs {
+								for _, extra := range []bool{false, true} {
+									for _, rid := range rids {
+										for _, st := range statuses {
+											in := brIn(dir, bc)
+											in.Wref, in.BatchPartition, in.FT, in.Patch, in.FinalizingPolicy = wref, bp, ft, patch, fin
+											in.SpecStyle, in.StyleAnn, in.EnableExtra, in.RolloutID, in.Status, in.Cursor = pair[0], pair[1], extra, rid, st.status, st.cursor
+											d.emit(in)
 										}
 									}
 								}
@@ -1405,6 +1511,8 @@ func main() {
 	}
 	thorough := fl.Tier == "thorough"
 	d := &domain{w: w, count: map[string]int{}}
+	d.nilBlocks(thorough)
+	d.stylesAndFlags(thorough)
 	d.rolloutAlpha(thorough)
 	d.rolloutBeta(thorough)
 	d.batchRelease("alpha", thorough)
